@@ -40,7 +40,7 @@ MANIFEST = {
             "tokio mpsc FIFO; the transport obeys C08 (events only for connected peers, one answer per substream request); "
             "futures_timer delays replaced by explicit timer events. Handshake I/O progress is abstracted to its events.",
     "technique": "Lean 4 proof (invariants of a labelled transition system) + model/implementation correspondence check",
-    "design_ref": "DESIGN.md §7 C11, §8-j",
+    "design_ref": "DESIGN.md §7 C11, §8-j, §8-q",
 }
 RULE = ("seeded histories of transport events (conn/disc/dialfail/subout/subfail/subin), remote actions on in-memory "
         "substreams (handshake, close, reset, read, notification, stalled close), user commands (open/close/accept/"
